@@ -14,7 +14,7 @@ theorem mem_coords (w h y x : Nat) : (y, x) ∈ coords w h ↔ y < h ∧ x < w :
   · rintro ⟨h1, h2⟩; exact ⟨y, h1, x, h2, rfl, rfl⟩
 
 /-- **rejection ⇔ interior zero pixel**, for any word order, offset, resolution and edge -/
-theorem firstBad_isSome_iff (word : List Nat → Nat → Nat) (raw : List Nat) (off w h edge : Nat) :
+theorem firstBad_isSome_iff (word : Raw → Nat → Nat) (raw : Raw) (off w h edge : Nat) :
     (firstBad word raw off w h edge).isSome = true ↔
       ∃ y x, y < h ∧ x < w ∧ onEdge w h edge y x = false ∧ pixel word raw off w y x = 0 := by
   unfold firstBad
@@ -29,7 +29,7 @@ theorem firstBad_isSome_iff (word : List Nat → Nat → Nat) (raw : List Nat) (
     exact ⟨(y, x), (mem_coords w h y x).mpr ⟨hy, hx⟩, by simp [he, hz]⟩
 
 /-- the reported bad pixel is an interior zero pixel -/
-theorem firstBad_spec (word : List Nat → Nat → Nat) (raw : List Nat) (off w h edge : Nat) (p : Nat × Nat)
+theorem firstBad_spec (word : Raw → Nat → Nat) (raw : Raw) (off w h edge : Nat) (p : Nat × Nat)
     (hb : firstBad word raw off w h edge = some p) :
     p.1 < h ∧ p.2 < w ∧ onEdge w h edge p.1 p.2 = false ∧ pixel word raw off w p.1 p.2 = 0 := by
   unfold firstBad at hb
@@ -40,7 +40,7 @@ theorem firstBad_spec (word : List Nat → Nat → Nat) (raw : List Nat) (off w 
   exact ⟨this.1, this.2, hq.1, hq.2⟩
 
 /-- **Lepton.** Bad frame iff an interior pixel word (big-endian, after the telemetry) is zero. -/
-theorem c13_lepton_bad_iff (raw : List Nat) (w h edge : Nat) :
+theorem c13_lepton_bad_iff (raw : Raw) (w h edge : Nat) :
     (∃ y x, parseLepton raw w h edge = .bad y x) ↔
       ∃ y x, y < h ∧ x < w ∧ onEdge w h edge y x = false ∧ be16 raw (640 + 2 * (y * w + x)) = 0 := by
   have key := firstBad_isSome_iff be16 raw leptonTelemetryBytes w h edge
@@ -59,7 +59,7 @@ theorem c13_lepton_bad_iff (raw : List Nat) (w h edge : Nat) :
 
 /-- **Lepton, valid frame**: every pixel is the big-endian word at its position; telemetry fields are the
 specified words (TimeOn / LastFFCTime in ms with Big16 32-bit order, temperatures in centi-kelvin). -/
-theorem c13_lepton_ok (raw : List Nat) (w h edge : Nat) (pix : Nat → Nat → Nat) (t : Telemetry)
+theorem c13_lepton_ok (raw : Raw) (w h edge : Nat) (pix : Nat → Nat → Nat) (t : Telemetry)
     (hok : parseLepton raw w h edge = .ok pix t) :
     (∀ y x, pix y x = byteAt raw (640 + 2 * (y * w + x)) * 256 + byteAt raw (640 + 2 * (y * w + x) + 1)) ∧
     t.timeOnMs = be16 raw 2 + be16 raw 4 * 65536 ∧
@@ -79,7 +79,7 @@ theorem c13_lepton_ok (raw : List Nat) (w h edge : Nat) (pix : Nat → Nat → N
     rw [hf] at key; cases key
 
 /-- **Boson.** Bad frame iff an interior pixel word (little-endian, from byte 0) is zero. -/
-theorem c13_boson_bad_iff (raw : List Nat) (w h edge : Nat) :
+theorem c13_boson_bad_iff (raw : Raw) (w h edge : Nat) :
     (∃ y x, parseBoson raw w h edge = .bad y x) ↔
       ∃ y x, y < h ∧ x < w ∧ onEdge w h edge y x = false ∧ le16 raw (2 * (y * w + x)) = 0 := by
   have key := firstBad_isSome_iff le16 raw 0 w h edge
@@ -100,7 +100,7 @@ theorem c13_boson_bad_iff (raw : List Nat) (w h edge : Nat) :
     obtain ⟨y, x, a, b, c, d⟩ := key
     exact ⟨y, x, a, b, c, by simpa [pixel] using d⟩
 
-theorem c13_boson_ok (raw : List Nat) (w h edge : Nat) (pix : Nat → Nat → Nat) (t : Telemetry)
+theorem c13_boson_ok (raw : Raw) (w h edge : Nat) (pix : Nat → Nat → Nat) (t : Telemetry)
     (hok : parseBoson raw w h edge = .ok pix t) :
     (∀ y x, pix y x = byteAt raw (2 * (y * w + x)) + byteAt raw (2 * (y * w + x) + 1) * 256) ∧
     t = bosonTelemetry := by
@@ -120,9 +120,9 @@ theorem c13_border_zero_ignored (w h edge y x : Nat) (hb : y < edge ∨ x < edge
   rcases hb with h1 | h1 | h1 | h1 <;> simp [h1]
 
 /-! non-vacuity: 3×3, edge 1 — only the centre pixel is interior -/
-example : (match parseBoson [1,0, 1,0, 1,0,  1,0, 0,0, 1,0,  1,0, 1,0, 1,0] 3 3 1 with
+example : (match parseBoson (ofList [1,0, 1,0, 1,0,  1,0, 0,0, 1,0,  1,0, 1,0, 1,0]) 3 3 1 with
            | .bad y x => y == 1 && x == 1 | .ok _ _ => false) = true := by decide
-example : (match parseBoson [0,0, 0,0, 0,0,  0,0, 5,1, 0,0,  0,0, 0,0, 0,0] 3 3 1 with
+example : (match parseBoson (ofList [0,0, 0,0, 0,0,  0,0, 5,1, 0,0,  0,0, 0,0, 0,0]) 3 3 1 with
            | .ok pix _ => pix 1 1 == 261 | .bad _ _ => false) = true := by decide
 
 end TR.C13P
